@@ -1,6 +1,8 @@
 // Shared helpers of the /verif harness ("th"): JSON in/out, program dump, big-stack runner.
 #pragma once
 #include <pthread.h>
+#include <signal.h>
+#include <unistd.h>
 
 #include <cstdio>
 #include <functional>
@@ -134,6 +136,18 @@ inline std::string digest_of(const Theo::CodegenResult& cr) {
   for (unsigned char c : s) { h ^= c; h *= 1099511628211ULL; }
   return std::to_string(h) + ":" + std::to_string(s.size());
 }
+
+// per-input watchdog: a call of the code under test that does not return within `secs` ends the process with a {"hang":i} record
+// (exit 75), so that a non-terminating change costs seconds, not the batch timeout
+inline volatile long g_watch_case = -1;
+inline void on_watch_alarm(int) {
+  char buf[64];
+  int n = snprintf(buf, sizeof buf, "{\"hang\":%ld}\n", (long)g_watch_case);
+  if (write(1, buf, n)) {}
+  _exit(75);
+}
+inline void watch(long i, int secs) { g_watch_case = i; signal(SIGALRM, on_watch_alarm); alarm(secs); }
+inline void unwatch() { alarm(0); }
 
 typedef int (*cmd_fn)(int, char**);
 struct Registry {
